@@ -67,6 +67,8 @@ def parse_docstring_annotation(
     with suppress(
         AttributeError,  # Docstring has no parent that can be used to resolve names.
         SyntaxError,  # Annotation contains syntax errors.
+        RecursionError,  # Annotation is nested too deeply for the parser.
+        ValueError,  # Annotation cannot be compiled at all (null bytes before Python 3.12, lone surrogates).
     ):
         code = compile(annotation, mode="eval", filename="", flags=PyCF_ONLY_AST, optimize=2)
         if code.body:  # type: ignore[attr-defined]
